@@ -32,6 +32,10 @@ class CellSpanningTree(SpanningTree):
         self.edges = []
 
     def compute(self):
+        # empty the tables: running compute() again on the same object must not append to the previous result
+        self.parent = [None]*len(self.mesh.cells)
+        self.children = [[] for v in self.mesh.id_cells]
+        self.edges = []
         dist_to_root = [float("inf") for v in self.mesh.id_cells]
         seen = [False for _ in self.mesh.id_cells]
         queue = deque()
@@ -91,6 +95,7 @@ class CellSpanningForest(SpanningForest):
         super().__init__(mesh)
 
     def compute(self) -> None : 
+        self.trees, self.roots = [], [] # a second call starts from scratch
         visited = [False]*len(self.mesh.cells)
         for c in self.mesh.id_cells:
             if not visited[c]:
